@@ -113,7 +113,7 @@ func C02(e *Env) {
 	var objs []c02Obj
 	sizes := append([]int64{}, tree.BoundarySizes...)
 	sizes = append(sizes, 1<<20+3)
-	for i := 0; i < e.Pick(20, 300); i++ {
+	for i := 0; i < e.Pick(60, 600); i++ {
 		sizes = append(sizes, rng.Int63n(400000))
 	}
 	must(os.MkdirAll(filepath.Join(root, "files"), 0o755))
@@ -161,7 +161,7 @@ func C02(e *Env) {
 			if !e.Thorough && ti > 0 && oi%len(targets) != ti {
 				continue
 			}
-			pairs := c02Pairs(rng, ob.size, e.Pick(8, 60), e.Thorough && oi%4 == 0)
+			pairs := c02Pairs(rng, ob.size, e.Pick(30, 120), e.Thorough || oi%8 == 0)
 			reqs := []wire.Req{wire.P(wire.OpOpen, ob.rel)}
 			var unsat []wire.Req
 			for _, pr := range pairs {
@@ -183,6 +183,33 @@ func C02(e *Env) {
 				}
 			}
 			list = append(list, sess{ob, reqs, ti})
+			// sequential chain: each ordinary read starts exactly where the previous one ended, with
+			// critical reads, CD reads and re-opens elsewhere in between (position caches must not leak)
+			if ob.size > 0 {
+				chain := []wire.Req{wire.P(wire.OpOpen, ob.rel)}
+				pos := int64(0)
+				if ob.size > 1<<30 {
+					pos = 1<<32 - 70000
+				}
+				for k := 0; k < e.Pick(12, 40) && pos < ob.size; k++ {
+					n := int64(1 + rng.Intn(70000))
+					chain = append(chain, wire.Read(uint32(n), uint64(pos)))
+					pos += min(n, ob.size-pos)
+					switch rng.Intn(4) {
+					case 0:
+						o := rng.Int63n(ob.size)
+						chain = append(chain, wire.Crit(uint32(min(ob.size-o, int64(1+rng.Intn(5000)))), uint64(o)))
+					case 1:
+						if ob.size > 24+2352+2048 {
+							chain = append(chain, wire.CD(uint32(rng.Int63n((ob.size-24-2048)/2352)), 1))
+						}
+					case 2:
+						chain = append(chain, wire.Read(uint32(1+rng.Intn(3000)), uint64(rng.Int63n(ob.size))), wire.P(wire.OpStat, ob.rel))
+					}
+				}
+				list = append(list, sess{ob, chain, ti})
+				run.Sig("%s %s sequential-chain buf=%d", ob.kind, sizeClassB(ob.size), targets[ti].buf)
+			}
 			for _, u := range unsat {
 				list = append(list, sess{ob, []wire.Req{wire.P(wire.OpOpen, ob.rel), wire.Read(10, 0), u}, ti})
 				run.Sig("%s %s unsatisfiable READCRIT buf=%d", ob.kind, sizeClassB(ob.size), targets[ti].buf)
